@@ -73,6 +73,7 @@ fn main() {
         "server-fwd" => streams::server::run_forward(&mut r, n, &mut out),
         "bins-zone" => streams::bins::run(&mut r, n, true, &mut out),
         "bins-hosts" => streams::bins::run(&mut r, n, false, &mut out),
+        "server-deep" => streams::server::run_server_deep(&mut out),
         "reload-live" => streams::server::run_reload_live(&mut r, n, &mut out),
         "reload-blocked" => streams::server::run_reload_blocked(&mut r, n, &mut out),
         other => {
